@@ -265,7 +265,13 @@ func (c *Caller) begin(ctx context.Context) []call {
 			defer cancel()
 			select {
 			case <-ctx.Done():
-				responder <- emptyCall
+				// withdraw the parked responder, unless an invocation has just
+				// taken it: then its calls are on the way and must still be returned
+				if c.responders.RemoveCb(id, func(_ string, v interface{}, exists bool) bool {
+					return exists && v == interface{}(responder)
+				}) {
+					return emptyCall
+				}
 			case result := <-responder:
 				return result
 			}
